@@ -1,8 +1,11 @@
 /-
   C06 — serialize-then-parse is the identity on statham's normal form.
-  (the fixpoint theorem is added as it is proved; first: the pieces both directions share)
+  The pieces both directions share (one generated keyword table), and the round trip itself on the schema-level
+  model of the serializer (`toSchema`, StathamModel/ToSchema.lean; tied to the real `serialize_json` by the driver op
+  `to_schema`): `C06_partial_round_trip` and `C06_partial_fixpoint`.
 -/
 import StathamModel.SerJson
+import StathamModel.Lemmas.SerOk
 import StathamModel.Dedupe
 import StathamModel.Tie
 namespace Statham.C06
@@ -40,5 +43,44 @@ theorem example_fixpoint :
      | .obj [("items", .obj [("minimum", .num (.int 1)), ("type", .str "integer")]), ("uniqueItems", .bool true),
              ("type", .str "array")] => true
      | _ => false) = true := by decide +kernel
+
+/-- **The property at full strength** (JSON leg): after the first parse, serialize-then-parse changes nothing. -/
+def Statement : Prop :=
+  ∀ (cx : PCtx) (s : Schema), parseErr s = none →
+    parseE cx (toSchema (parseE cx s)) = parseE cx s
+
+/-- **Proved: serialize-then-parse is the identity on normal-form trees.**  `NF cx e` says that at every node of `e`
+    the parser, handed the node's own keywords and children, builds that node again (and that `Nothing()` carries
+    nothing and does not sit in an `additional…` position, where `false` is read as the boolean).  Every keyword
+    value, every default, every property flag and every class name comes back: the conclusion is equality of trees,
+    not `==`. -/
+theorem C06_partial_round_trip (cx : PCtx) (e : Elem) (h : NF cx e) : parseE cx (toSchema e) = e :=
+  parse_toSchema cx e h
+
+/-- **Proved: the fixpoint form of the property** — once the first parse has produced a normal-form tree, the
+    second serialization is the identical document, and so is every later one.  What is not proved is that the first
+    parse always lands in normal form (`NF (parseE cx s)`): the driver evaluates that on every generated schema, and
+    the complement is exactly the recorded findings of C06 (empty keyword beside composition, `Nothing` with a
+    default) plus class-name suffixing, which lives in `Dedupe`. -/
+theorem C06_partial_fixpoint (cx : PCtx) (s : Schema) (h : NF cx (parseE cx s)) :
+    toSchema (parseE cx (toSchema (parseE cx s))) = toSchema (parseE cx s) := by
+  rw [parse_toSchema cx _ h]
+
+/-- `n` round trips -/
+def roundTrips (cx : PCtx) : Nat → Elem → Elem
+  | 0, e => e
+  | n + 1, e => roundTrips cx n (parseE cx (toSchema e))
+
+/-- and by induction any number of further round trips -/
+theorem C06_partial_iterate (cx : PCtx) (e : Elem) (h : NF cx e) (n : Nat) : roundTrips cx n e = e := by
+  induction n with
+  | zero => rfl
+  | succ n ih => rw [roundTrips, parse_toSchema cx e h, ih]
+
+/-- finding C06-nothing-with-default at the excluded point: `Nothing()` carrying a default is not in normal form, and the
+    round trip indeed loses the default -/
+theorem counter_nothing_default :
+    (parseE cx0 (toSchema (Elem.leaf .nothing { default := some (.num (.int 1)) }))).kw.default = none := by
+  decide +kernel
 
 end Statham.C06
